@@ -11,7 +11,7 @@ open Kern
 
 /-- `MOVD AX, X0; PUNPCKLBW X0, X0; PUNPCKLBW X0, X0; PSHUFL $0, X0, X0` puts the low byte in every lane -/
 theorem broadcast_lane (ax : Nat) (c : UInt8) (hAL : ax % 256 = c.toNat) (j : Nat) :
-    (if (4 * (0 / 4 ^ (j / 4 % 4) % 4) + j % 4) / 2 / 2 < 4 then
+    (if (4 * (0 / 4 ^ (j / 4 % 4) % 4) + j % 4) / 2 / 2 < 8 then
         UInt8.ofNat (ax / 256 ^ ((4 * (0 / 4 ^ (j / 4 % 4) % 4) + j % 4) / 2 / 2) % 256) else 0) = c := by
   have e : (4 * (0 / 4 ^ (j / 4 % 4) % 4) + j % 4) / 2 / 2 = 0 := by
     rw [Nat.zero_div]; omega
